@@ -162,9 +162,10 @@ Variable w : Z.
 Variable p : Z.
 Variable k : nat.
 Variable om : Z.
+Variables padW padW' : list Z.          (* what follows the tables in the arrays (the library's arrays have 2*degree cells) *)
 Let tws (lvl : nat) : list Z := nth lvl (prep p k om) [].
-Let W := flat p k om.
-Let W' := map (fun v => (v * 2 ^ w) / p) W.
+Let W := flat p k om ++ padW.
+Let W' := map (fun v => (v * 2 ^ w) / p) (flat p k om) ++ padW'.
 
 Lemma run_layers_snoc j : forall lvl x, run_layers w p k tws lvl (S j) x = blocks (bfL w p tws (lvl + j)) (2 ^ (lvl + j)) (2 ^ (k - (lvl + j) - 1)) (run_layers w p k tws lvl j x).
 Proof.
@@ -173,12 +174,17 @@ Proof.
   - change (run_layers w p k tws lvl (S (S j)) x) with (run_layers w p k tws (S lvl) (S j) (blocks (bfL w p tws lvl) (2 ^ lvl) (2 ^ (k - lvl - 1)) x)).
     rewrite IH. replace (S lvl + j)%nat with (lvl + S j)%nat by lia. reflexivity.
 Qed.
-Lemma W'_nth i : nth i W' 0 = (nth i W 0 * 2 ^ w) / p.
-Proof. unfold W'. change 0 with ((fun v => v * 2 ^ w / p) 0) at 1. apply map_nth. Qed.
+Lemma W_nth i : (i + 1 < 2 ^ k)%nat -> nth i W 0 = nth i (flat p k om) 0.
+Proof. intros Hi. unfold W. apply app_nth1. pose proof (flat_length p k om). lia. Qed.
+Lemma W'_nth i : (i + 1 < 2 ^ k)%nat -> nth i W' 0 = (nth i W 0 * 2 ^ w) / p.
+Proof.
+  intros Hi. rewrite W_nth by exact Hi. unfold W'. rewrite app_nth1 by (rewrite map_length; pose proof (flat_length p k om); lia).
+  change 0 with ((fun v => v * 2 ^ w / p) 0) at 1. apply map_nth.
+Qed.
 Lemma upto_run_layers j x : (j <= k)%nat -> upto (bf4 w p) W W' k j x = run_layers w p k tws 0 j x.
 Proof.
   induction j as [|j IH]; intros Hj; [reflexivity|]. rewrite run_layers_snoc. cbn [upto Nat.add]. rewrite IH by lia. unfold lay.
-  apply blocks_ext. intros i a b Hi. unfold bfm, bfL, bf4. rewrite W'_nth. unfold W. rewrite flat_level by lia. reflexivity.
+  apply blocks_ext. intros i a b Hi. pose proof (off_fits k j ltac:(lia)). unfold bfm, bfL, bf4. rewrite W'_nth, W_nth by lia. rewrite flat_level by lia. reflexivity.
 Qed.
 Lemma fpass_fused_pass M w1 w1' : forall y, fpass (fused w p) M w1 w1' y = fused_pass w p M w1 w1' y.
 Proof. induction M as [|M IH]; intros y; [reflexivity|]. destruct y as [|u0 [|u1 [|u2 [|u3 rest]]]]; cbn [fpass fused_pass]; reflexivity. Qed.
@@ -189,9 +195,10 @@ Proof.
   assert (G : forall kk, kk = k -> result w p k W W' x0 = ntt_core_at w p k tws kk x0); [|apply G; reflexivity].
   intros kk Hkk. destruct kk as [|[|k2]]; try lia. cbn [ntt_core_at]. unfold result.
   replace (k - 2)%nat with k2 by lia.
-  rewrite upto_run_layers by lia. rewrite fpass_fused_pass. rewrite W'_nth.
-  assert (E : nth (off k k2 + 1) W 0 = nth 1 (tws k2) 0).
-  { unfold W, tws. apply flat_level; [lia|]. replace (k - k2 - 1)%nat with 1%nat by lia. cbn. lia. }
+  pose proof (off_fits k k2 ltac:(lia)) as OF. replace (k - k2 - 1)%nat with 1%nat in OF by lia. cbn [Nat.pow Nat.mul] in OF.
+  rewrite upto_run_layers by lia. rewrite fpass_fused_pass. rewrite W'_nth, W_nth by lia.
+  assert (E : nth (off k k2 + 1) (flat p k om) 0 = nth 1 (tws k2) 0).
+  { unfold tws. apply flat_level; [lia|]. replace (k - k2 - 1)%nat with 1%nat by lia. cbn. lia. }
   rewrite E. reflexivity.
 Qed.
 End OnTables.
